@@ -281,6 +281,74 @@ WellFormed(sh, st) ==
     [] OTHER -> TRUE
 
 ---------------------------------------------------------------------------
+(* Allocation discipline (C17): the capacity ledger.                       *)
+(* Applies to the vector-backed structural regions: owned slices, strings, *)
+(* slices of regions (Vec index container), options, results, tuples,      *)
+(* plain vectors as regions, mirrors.                                      *)
+(* StorLens lists the element counts of all backing vectors in a fixed     *)
+(* order; the *Amt operators list, in the same order, how many additional  *)
+(* elements each pre-sizing call reserves - written as the code writes     *)
+(* them.  Vec::reserve(n) guarantees capacity >= len + n, and a Vec never  *)
+(* reallocates while len <= capacity; so "pushing exactly the announced    *)
+(* contents performs no reallocation" is the arithmetic fact               *)
+(*   StorLens(after the pushes) <= StorLens(before) + amounts,             *)
+(* which RegionsMC checks for every reachable state and batch.             *)
+RECURSIVE Structural(_)
+Structural(sh) ==
+  CASE sh.k \in {"owned", "mirror", "vecreg"} -> TRUE
+    [] sh.k \in {"string", "option"} -> Structural(sh.inner)
+    [] sh.k = "result" -> Structural(sh.ok) /\ Structural(sh.err)
+    [] sh.k = "tuple" -> \A i \in 1..Len(sh.fs) : Structural(sh.fs[i])
+    [] sh.k = "slice" -> sh.ic = "vec" /\ Structural(sh.inner)
+    [] OTHER -> FALSE
+
+RECURSIVE Concat(_)
+Concat(ss) == IF ss = <<>> THEN <<>> ELSE Head(ss) \o Concat(Tail(ss))
+
+RECURSIVE StorLens(_, _)
+StorLens(sh, st) ==
+  CASE sh.k \in {"owned", "vecreg"} -> <<Len(st.data)>>
+    [] sh.k = "mirror" -> <<>>
+    [] sh.k \in {"string", "option"} -> StorLens(sh.inner, st.inner)
+    [] sh.k = "result" -> StorLens(sh.ok, st.oks) \o StorLens(sh.err, st.errs)
+    [] sh.k = "tuple" -> Concat([i \in 1..Len(sh.fs) |-> StorLens(sh.fs[i], st.fs[i])])
+    [] sh.k = "slice" -> <<IC!ICLen(st.slices)>> \o StorLens(sh.inner, st.inner)
+
+\* reserve_items(items): what each region reserves in each of its vectors
+RECURSIVE ReserveItemsAmt(_, _)
+ReserveItemsAmt(sh, items) ==
+  CASE sh.k = "owned" -> <<SumSeq([i \in 1..Len(items) |-> Len(items[i])])>>      \* sum of the lengths
+    [] sh.k = "vecreg" -> <<Len(items)>>                                            \* items.count()
+    [] sh.k = "mirror" -> <<>>
+    [] sh.k = "string" -> ReserveItemsAmt(sh.inner, items)                          \* as bytes
+    [] sh.k = "option" ->                                                            \* filter_map(Some)
+         ReserveItemsAmt(sh.inner, LET somes == SelectSeq(items, LAMBDA v : v.t = "some")
+                                   IN  [i \in 1..Len(somes) |-> somes[i].v])
+    [] sh.k = "result" ->                                                            \* oks and errs separately
+         LET oks  == SelectSeq(items, LAMBDA v : v.t = "ok")
+             errs == SelectSeq(items, LAMBDA v : v.t = "err")
+         IN  ReserveItemsAmt(sh.ok, [i \in 1..Len(oks) |-> oks[i].v])
+             \o ReserveItemsAmt(sh.err, [i \in 1..Len(errs) |-> errs[i].v])
+    [] sh.k = "tuple" ->                                                             \* per-field projection
+         Concat([f \in 1..Len(sh.fs) |-> ReserveItemsAmt(sh.fs[f], [i \in 1..Len(items) |-> items[i][f]])])
+    [] sh.k = "slice" ->                                                             \* slices + flattened inner
+         <<SumSeq([i \in 1..Len(items) |-> Len(items[i])])>>
+         \o ReserveItemsAmt(sh.inner, Concat(items))
+
+\* reserve_regions(regions) / merge_regions(regions): the sum of the sources' vector lengths
+RECURSIVE AddSeqs(_, _)
+AddSeqs(a, b) == [i \in 1..Len(a) |-> a[i] + b[i]]
+RECURSIVE SumLens(_, _, _)
+SumLens(sh, srcs, zero) == IF srcs = <<>> THEN zero ELSE AddSeqs(StorLens(sh, Head(srcs)), SumLens(sh, Tail(srcs), zero))
+Zeros(sh) == [i \in 1..Len(StorLens(sh, InitR(sh))) |-> 0]
+ReserveRegionsAmt(sh, srcs) == SumLens(sh, srcs, Zeros(sh))
+
+Fits(lens, guaranteed) == \A i \in 1..Len(lens) : lens[i] <= guaranteed[i]
+
+RECURSIVE PushAll(_, _, _)
+PushAll(sh, st, vs) == IF vs = <<>> THEN st ELSE PushAll(sh, PushR(sh, st, Head(vs)).st, Tail(vs))
+
+---------------------------------------------------------------------------
 (* Read-item algebra (C13, C14, C15).                                      *)
 
 \* the value tagged PANIC: what a fail-stop accessor "returns"
@@ -310,6 +378,29 @@ CloneOnto(sh, x, t) ==
     [] sh.k \in {"collapse", "cip"} -> CloneOnto(sh.inner, x, t)
     [] OTHER -> x
 
-\* Ordering of read items = lexicographic ordering of the owned values.
-\* Scalars are compared through CmpScalar supplied by the instantiating module.
+\* Ordering of read items = lexicographic ordering of the owned values (C15).
+\* Defined for the comparable shapes whose scalars are numbers (u8 / bytes).
+Flip(c) == IF c = "lt" THEN "gt" ELSE IF c = "gt" THEN "lt" ELSE "eq"
+RECURSIVE CmpV(_, _, _), CmpSeq(_, _, _)
+CmpSeq(sh, a, b) ==
+  IF a = <<>> /\ b = <<>> THEN "eq"
+  ELSE IF a = <<>> THEN "lt"
+  ELSE IF b = <<>> THEN "gt"
+  ELSE LET c == CmpV(sh, Head(a), Head(b))
+       IN  IF c # "eq" THEN c ELSE CmpSeq(sh, Tail(a), Tail(b))
+CmpV(sh, a, b) ==
+  CASE sh.k \in {"mirror", "vecreg", "scalar"} -> IF a < b THEN "lt" ELSE IF a > b THEN "gt" ELSE "eq"
+    [] sh.k = "owned"  -> CmpSeq([k |-> "scalar"], a, b)
+    [] sh.k = "string" -> CmpSeq([k |-> "scalar"], a, b)
+    [] sh.k = "option" -> IF a.t = "none" /\ b.t = "none" THEN "eq"
+                          ELSE IF a.t = "none" THEN "lt"
+                          ELSE IF b.t = "none" THEN "gt"
+                          ELSE CmpV(sh.inner, a.v, b.v)
+    [] sh.k \in {"slice", "columns"} -> CmpSeq(sh.inner, a, b)
+    [] sh.k \in {"collapse", "cip"} -> CmpV(sh.inner, a, b)
+
+\* what the comparison operators of two read items must answer
+CmpAnswer(sh, a, b) ==
+  LET c == CmpV(sh, a, b)
+  IN  [eq |-> c = "eq", ne |-> c # "eq", partial_cmp |-> c, cmp |-> c, rev_eq |-> c = "eq", rev_cmp |-> Flip(c)]
 =============================================================================
